@@ -96,6 +96,32 @@ def analyse(R, runner, trace, label, count=True):
             if len(opk) >= 3 and changed:
                 nontriv += 1
                 distinct.add(hashlib.sha1("\n".join(case_ops(cl)).encode()).hexdigest())
+        # situation counters (what the generated histories actually reached)
+        sit = R.coverage.setdefault("situations", {})
+        def bump(k, n=1): sit[k] = sit.get(k, 0) + n
+        dump_pfx, dump_faces = {}, {}
+        for l in lines:
+            f = l.split(" ")
+            if f[0] == "obs" and f[1] == "peer":
+                if f[6] == "snap": bump("peer_obs_with_snapshot_request_pending")
+                if f[6].startswith("op:"): bump("peer_obs_with_op_request_pending")
+                if f[3] != "0" and f[-1] != "-": bump("peer_obs_nonempty_set")
+            elif f[0] == "op" and f[1] == "ans" and len(f) > 3 and f[3].startswith("s"): bump("answers_from_snapshot_cache")
+            elif f[0] == "op" and f[1] == "tmo": bump("fetch_timeouts_or_nacks")
+            elif f[0] == "tab" and f[1] == "me":
+                dump_pfx, dump_faces = {}, {}
+            elif f[0] == "tab" and f[1] == "pfx" and f[3] != "-":
+                for x in f[3].split(","): dump_pfx[x] = dump_pfx.get(x, 0) + 1
+            elif f[0] == "tab" and f[1] == "nbr":
+                dump_faces[f[3]] = dump_faces.get(f[3], 0) + 1
+            elif f[0] == "go":
+                bump("fib_rounds_checked")
+                if any(v > 1 for v in dump_pfx.values()): bump("fib_rounds_with_multihomed_prefix")
+                if any(v > 1 for k, v in dump_faces.items() if k != "0"): bump("fib_rounds_with_two_neighbours_on_one_face")
+            elif f[0] == "obs" and f[1] == "cmds" and f[2] != "-":
+                bump("fib_rounds_emitting_commands")
+                if "U:" in f[2]: bump("fib_rounds_emitting_unregister")
+                if "R:" in f[2] and "U:" in f[2]: bump("fib_rounds_emitting_both")
         samples = []
         for start, cl in cases[:2]:
             samples.append(" | ".join(case_ops(cl)[:8])[:300])
@@ -210,6 +236,7 @@ def run(R):
 
 def replay(R, path):
     import json
+    vlib.EVID = R.work          # a replay must not overwrite evidence/C19.json (written to work/C19/C19.json instead)
     setup(R)
     runner = build(R)
     if runner is None:
